@@ -242,6 +242,51 @@ def _shard_worker(args):
     return (facet_name, shard, stats.export())
 
 
+def _proc_main(job, conn):
+    """One shard in its own process; leaves with os._exit so that threads leaked by a (broken) tree under test cannot keep it alive."""
+    try:
+        res = _shard_worker(job)
+    except BaseException:
+        st = Stats()
+        st.harness_error = traceback.format_exc()
+        res = (job[1], job[4], st.export())
+    try:
+        conn.send(res)
+        conn.close()
+    finally:
+        sys.stdout.flush()
+        sys.stderr.flush()
+        os._exit(0)
+
+
+def _run_jobs(jobs, nproc):
+    from multiprocessing.connection import wait
+
+    ctx = multiprocessing.get_context("fork")
+    pending = list(jobs)
+    active = {}  # conn -> (process, job)
+    out = []
+    while pending or active:
+        while pending and len(active) < nproc:
+            job = pending.pop(0)
+            parent, child = ctx.Pipe(duplex=False)
+            p = ctx.Process(target=_proc_main, args=(job, child))
+            p.start()
+            child.close()
+            active[parent] = (p, job)
+        for conn in wait(list(active), timeout=1.0):
+            p, job = active.pop(conn)
+            try:
+                out.append(conn.recv())
+            except EOFError:
+                st = Stats()
+                st.harness_error = "shard process died without a result (exit code %r)" % (p.exitcode,)
+                out.append((job[1], job[4], st.export()))
+            conn.close()
+            p.join(5)
+    return out
+
+
 def _hypothesis_shard(mod, facet, tier, seed, shard, count, stats):
     import hypothesis
     from hypothesis import HealthCheck, Phase, given, settings
@@ -429,10 +474,7 @@ def run_property(prop, tier, seed, only_facets=None, budget_scale=1.0):
         for job in jobs:
             results.append(_shard_worker(job))
     else:
-        ctx = multiprocessing.get_context("fork")
-        with ctx.Pool(nproc, maxtasksperchild=1) as pool:
-            for r in pool.imap_unordered(_shard_worker, jobs):
-                results.append(r)
+        results.extend(_run_jobs(jobs, nproc))
 
     per_facet = {}
     harness_errors = []
